@@ -62,6 +62,7 @@ type Server struct {
 	log           *slog.Logger
 	httpServer    *http.Server
 	referrerCache *cache.Cache[referrerKey, referrerResponses]
+	rateMu        sync.Mutex // serializes the rate limit accounting, separate from mu so Shutdown can wait for handlers
 	rateLimit     *cache.Cache[string, *rateLimitEntry]
 }
 
@@ -156,7 +157,7 @@ func (s *Server) ServeHTTP(resp http.ResponseWriter, req *http.Request) {
 				ip = ip[:portSep]
 			}
 		}
-		s.mu.Lock()
+		s.rateMu.Lock()
 		now := time.Now()
 		limit, err := s.rateLimit.Get(ip)
 		count := 1
@@ -177,7 +178,7 @@ func (s *Server) ServeHTTP(resp http.ResponseWriter, req *http.Request) {
 			}
 		}
 		s.rateLimit.Set(ip, limit)
-		s.mu.Unlock()
+		s.rateMu.Unlock()
 		if count > s.conf.API.RateLimit {
 			// block, retry after 1 second
 			resp.Header().Add("Retry-After", "1")
